@@ -278,7 +278,7 @@ fn input_flags(parts: &[Vec<u64>], want: &str) -> String {
 }
 
 fn high_fragment(ids: &[u64]) -> bool {
-    ids.iter().any(|v| (v >> 32) as u32 >= u32::MAX - 1)
+    ids.iter().any(|v| (v >> 32) as u32 == u32::MAX)
 }
 
 /// mask_to_offset_ranges: offsets of the ids the mask selects, grouped into ranges
@@ -976,7 +976,7 @@ pub fn run(args: &Args) -> i32 {
     }
     report.assume("row ids within one sequence / table are unique (documented invariant of RowIdSequence); lists never contain duplicates or u64::MAX");
     report.assume("mask positions are sorted and in bounds; slices are in bounds; select offsets are sorted (documented preconditions)");
-    report.assume("mask_to_offset_ranges / RowIdTreeMap conversion are skipped for ids in fragments >= u32::MAX-1 (known C21 insert_range non-termination)");
+    report.assume("mask_to_offset_ranges / RowIdTreeMap conversion are skipped for ids in fragment u32::MAX (guard: the insert_range non-termination fixed in /repo 96c4b4b would hang the check if it came back; the C21 child-process probe covers it)");
     sink.flush();
     report.finish()
 }
